@@ -114,7 +114,9 @@ func c08Deviations(it *corpus.Item, two bool, fn func(src, why string)) {
 	if two {
 		forTwoDeviations(it, func(src, why string) { fn(src, it.Why+" trivia=two neighbouring gaps") })
 	}
-	for _, l := range [][2]string{{"\r\n", "\r\n"}, {"\n", "\n"}, {" /*c*/ ", " "}, {"\t//c\n", "\t"}, {"#c\r\n", "\r\n"}, {"", " "}} {
+	for _, l := range [][2]string{{"\r\n", "\r\n"}, {"\n", "\n"}, {" /*c*/ ", " "}, {"\t//c\n", "\t"}, {"#c\r\n", "\r\n"}, {"", " "},
+		// comments whose end is preceded by more stars, with more comments behind them
+		{" /* c **/ ", " "}, {" /** d ***/", " "}, {" /***/ /**/", " "}} {
 		fn(corpus.Layout(it.R, l[0], l[1]), it.Why+" trivia=same trivia in every gap: "+strconv.Quote(l[0]))
 	}
 }
@@ -187,6 +189,8 @@ func c08Run(c *core.Ctx) {
 
 // {baseline, variant, what changed}
 var c08Pairs = [][3]string{
+	{"<?php $a; $b; $c;", "<?php /* n **/ $a; /* o */ $b; /** p ***/ $c; /*q*/", "comments that end in a run of stars"},
+	{"<?php f($a, $b);", "<?php f(/***/$a,/**/ $b /****/);/* */", "comments made of stars only"},
 	{"<?php $a; ?>", "<?php $a;?>", "no blank before close tag"},
 	{"<?php $a; ?>", "<?php $a;\n?>", "newline before close tag"},
 	{"<?php $a; ?>", "<?php $a; /*c*/ ?>", "comment before close tag"},
